@@ -72,6 +72,7 @@ type chainWorld struct {
 	deleg    sender   // the delegator contract (a proxy)
 	switches int64
 	delEvent thor.Bytes32
+	haltWhy  string
 }
 
 func (c *chainWorld) stateOf(b *block.Block) *state.State {
@@ -122,6 +123,7 @@ func (c *chainWorld) mint(txs []*tx.Transaction) *block.Block {
 		when uint64
 	}
 	var cs []cand
+	var schedErr []string
 	sum, err := c.net.God.Repo.GetBlockSummary(c.parent.Header().ID())
 	must(err)
 	for who := 0; who < c.nAcct; who++ {
@@ -129,6 +131,7 @@ func (c *chainWorld) mint(txs []*tx.Transaction) *block.Block {
 		pk := packer.New(c.net.God.Repo, c.net.God.Stater, acc.Address, &acc.Address, c.net.FC, 0)
 		flow, err := pk.Schedule(sum, c.parent.Header().Timestamp()+thor.BlockInterval())
 		if err != nil {
+			schedErr = append(schedErr, fmt.Sprintf("%s: %v", c.name(acc.Address), err))
 			continue
 		}
 		cs = append(cs, cand{who, flow.When()})
@@ -147,7 +150,15 @@ func (c *chainWorld) mint(txs []*tx.Transaction) *block.Block {
 		}
 		lastErr = err
 	}
-	fail("chain: nobody could produce block", c.parent.Header().Number()+1, lastErr)
+	if len(cs) == 0 {
+		// no account is entitled to produce the next block: the chain has halted.  This is an observation, not harness
+		// trouble: the history ends with a ChainHalt event and the specification says whether it is the known F4 shape
+		// (SyncPOS of the next block runs the exit of the only leader with an empty queue: the packer then schedules
+		// proof of stake over an empty leader group) or something else.
+		c.haltWhy = fmt.Sprint(schedErr)
+		return nil
+	}
+	fail("chain: no candidate could pack block", c.parent.Header().Number()+1, lastErr)
 	return nil
 }
 
@@ -458,6 +469,12 @@ func runChain(p preset, seed int64, hist, blocks int, poa bool) *world {
 			raw = append(raw, t.t)
 		}
 		blk := c.mint(raw)
+		if blk == nil {
+			w.evs = append(w.evs, trace.Ev{"e": "ChainHalt", "n": w.block + 1, "ok": true, "msg": "", "amt": 0, "why": c.haltWhy, "post": w.snapshot()})
+			w.stat.Events++
+			w.stat.Emptied++
+			break
+		}
 		c.parent = blk
 		w.st = c.stateOf(blk)
 		w.block = blk.Header().Number()
